@@ -17,7 +17,7 @@ ASSUMPTIONS = [
 ]
 REQUIRED_COUNTERS = ["optimal.cpl", "optimal.cp", "optimal.gp", "family.quad", "family.neglog", "family.entropy", "family.lse",
                      "family.cpl-quad", "family.gp", "backtrack-on-None", "cp-vs-coneqp", "gp-vs-cp", "Fxz-calls-checked",
-                     "kkt.ldl", "kkt.ldl2", "kkt.chol", "kkt.chol2", "sparse-Df", "restricted-domain"]
+                     "kkt.ldl", "kkt.ldl2", "kkt.chol", "kkt.chol2", "sparse-Df", "restricted-domain", "zero-optimum"]
 
 
 def plan(tier):
@@ -185,6 +185,18 @@ def run(ctx):
             pr = nl.gen_cp(rng)
         d = pr.dims
         pr.sparse_lin = rng.random() < 0.3
+        zero_opt = False
+        if rng.random() < 0.15:
+            # optimal value ~ 0: the iterates have pcost > 0 >= dcost, the documented relative gap is undefined (None) and
+            # only gap <= abstol can end the iteration.  The instance is derived from a preliminary solve; the verdicts on
+            # it are recomputed from its own data.
+            s0, e0 = call(entry, pr, pr.make_F([]) if entry != "gp" else None, None, {"show_progress": False})
+            if e0 is None and s0["status"] == "optimal":
+                xs0 = vecn(s0["x"])
+                p0 = float(pr.c @ xs0) if entry == "cpl" else pr.funcs[0].val(xs0)
+                nl.zero_optimum(pr, entry, xs0, p0)
+                zero_opt = True
+                ctx.count("zero-optimum")
         restricted = False
         if entry != "gp" and rng.random() < 0.2:
             # artificially restricted convex domain around the planted point (forces None answers in the line search)
@@ -209,7 +221,7 @@ def run(ctx):
         log = []
         F = pr.make_F(log, sparse_Df=sparse_Df, sparse_H=sparse_H, scalar_f=rng.random() < 0.3, none_style=rng.choice([0, 1])) if entry != "gp" else None
         c.desc.update({"entry": entry, "family": pr.family, "n": pr.n, "mnl": len(pr.funcs) - (0 if entry == "cpl" else 1), "dims": d.key(),
-                       "p": pr.A.shape[0], "kkt": kl, "opts": opts, "restricted": restricted, "sparse": [pr.sparse_lin, sparse_Df, sparse_H]})
+                       "p": pr.A.shape[0], "kkt": kl, "opts": opts, "restricted": restricted, "sparse": [pr.sparse_lin, sparse_Df, sparse_H], "zero-optimum": zero_opt})
         sol, exc = call(entry, pr, F, kkt, opts)
         ctx.count("family." + pr.family)
         if exc is not None:
